@@ -623,6 +623,14 @@ def tensor_method(it, tv, name, args, kwargs, node):
         r = split_list(it, tv, args[0], args[1] if len(args) > 1 else kwargs.get("dim"), node)
         if r is not None:
             return r
+    if name in ("new_zeros", "new_ones") and args:
+        # a fresh tensor of the given shape, all zeros / ones, with this tensor's dtype and device
+        from .ops_ext import shape_from_args as _sfa
+
+        sh_ = _sfa(list(args))
+        r = it.fresh(T.ZERO if name == "new_zeros" else T.ONE, sh_, kind, node)
+        r.obj.dtype_src = tv.obj
+        return r
     if name in ("masked_fill", "where", "index_select", "gather", "flip", "cumsum", "cumprod", "flatten", "permute", "narrow", "chunk", "split", "type", "new_zeros", "new_tensor", "eq", "ne", "lt", "gt", "le", "ge", "nonzero", "argmax", "argmin", "sort", "unique", "norm", "diag", "diagonal", "tril", "triu", "fill_diagonal_"):
         if name == "flatten":
             return it.fresh(T.app("flatten", t) if t is not None else None, None, kind, node)
